@@ -160,6 +160,26 @@ def _check_tg(case):
     return n, "/".join(summary), (tuple(order_type(e, (a, b)) for _, _, e in tiers), cmp3(a, b)), viols
 
 
+def _check_open_window(case):
+    """an open-ended window - crop(t, inf) "from t to the end, wherever that is", crop(-inf, t) - is a window with a < b like any other: it
+    selects what the window reaching one second beyond the span selects"""
+    kind, entries, a, b = case
+    t = (IT if kind == "I" else PT)("t", list(entries), 0.0, 4.0)
+    inf = float("inf")
+    a2, b2 = (-1.0 if a == -inf else a), (5.0 if b == inf else b)
+    viols = []
+    n = 0
+    for mode in MODES:
+        n += 1
+        st, r, _ = call(t.crop, a, b, mode, False)
+        st2, r2, _ = call(t.crop, a2, b2, mode, False)
+        if st == "exc" or st2 == "exc" or ents(r) != ents(r2):
+            viols.append(Viol("open-ended-window", f"{'Interval' if kind == 'I' else 'Point'}Tier.crop({a}, {b}, {mode!r}, False) on {entries} gives "
+                                                   f"{r if st == 'exc' else ents(r)!r}; crop({a2}, {b2}, ...) gives {r2 if st2 == 'exc' else ents(r2)!r}"))
+            break
+    return n, "ok" if not viols else "!", (kind, len(entries), a, b), viols
+
+
 def _check_tg_grown(case):
     """a tier that was GROWN IN PLACE (insertEntry beyond its old end / before its old start) after it had been added to the textgrid: the tier
     widened its own span, the textgrid's own span fields still say what they said.  Textgrid.crop crops the tiers - what the tiers hold
@@ -396,6 +416,18 @@ def parts(tier):
              "tier-wise comparison with the model, textgrid span, validate() for strict/truncated",
         bounds={"tiers": 3, "stride_over_second_and_third_tier": 3 if quick else 1}))
 
+    def gen_open():
+        inf = float("inf")
+        for s in D.interval_sets((0.0, 1.0, 2.0, 3.0, 4.0), 2):
+            for a, b in ((0.0, inf), (1.5, inf), (2.0, inf), (4.0, inf), (-inf, 2.0), (-inf, 0.5), (-inf, 4.0), (-inf, inf)):
+                yield ("I", D.labelled(s), a, b)
+        for s in D.point_sets((0.0, 1.0, 2.0, 4.0), 2):
+            for a, b in ((0.0, inf), (1.0, inf), (-inf, 2.0), (-inf, inf)):
+                yield ("P", D.labelled_points(s), a, b)
+
+    ps.append(InputPart("crop-open-ended-windows", gen_open, _check_open_window,
+                        rule="interval sets (<=2) and point subsets on the unit grid x windows with one or both bounds infinite (crop(t, inf), crop(-inf, t)) x 3 modes: "
+                             "the same entries as the window that reaches one second beyond the span", bounds={}))
     ps.append(InputPart(
         "crop-textgrid-with-tiers-grown-in-place",
         lambda: ((si, where, a, b) for si in range(3) for where in ("after", "before")
